@@ -108,10 +108,11 @@ def strategy(tier: str):
          # the same Persistence object saved earlier states of the registry (scheduled saves); the file may have been removed since
          "mid_saves": st.one_of(st.just([]), st.lists(st.integers(0, 24), min_size=1, max_size=3, unique=True).map(sorted)),
          "unlink_after_mid": st.sampled_from((False, False, True)),
-         "final_saves": st.sampled_from((1, 1, 2))}
+         "final_saves": st.sampled_from((1, 1, 2)), "build": st.sampled_from((None, None, "outside", "two-runs")), "reload_after_use": st.booleans()}
     )
     direct = st.fixed_dictionaries({"kind": st.just("direct"), "registry": _direct_registry(), "legacy_nulls": st.booleans(), "prior_save": prior, "load_via": load_via,
-                                    "final_saves": st.sampled_from((1, 1, 2)), "unlink_after_mid": st.sampled_from((False, False, True))})
+                                    "final_saves": st.sampled_from((1, 1, 2)), "unlink_after_mid": st.sampled_from((False, False, True)),
+                                    "build": st.sampled_from((None, None, "outside", "two-runs")), "reload_after_use": st.booleans()})
     overlap = st.fixed_dictionaries({"kind": st.just("overlap"), "registry": _direct_registry(), "head_start": st.integers(0, 8), "grow": st.integers(1, 3)})
     return gen.weighted((4, hist), (2, direct), (1, overlap))
 
@@ -139,6 +140,12 @@ def enumerate_cases(tier: str):
                 yield {"kind": "direct", "registry": small, "legacy_nulls": False, "load_via": via, "final_saves": finals, "unlink_after_mid": unlink}
                 yield {"kind": "hist", "version": "2.1", "ops": [["rx", "1;255;0;0;17;2.1\n"], ["rx", "1;0;0;0;6;t\n"], ["rx", "1;0;1;0;0;20\n"], ["rx", "2;255;0;0;17;2.1\n"]],
                        "load_via": via, "final_saves": finals, "unlink_after_mid": unlink, "mid_saves": [1, 3]}
+    for build in ("outside", "two-runs"):
+        yield {"kind": "direct", "registry": small, "legacy_nulls": False, "load_via": "own", "final_saves": 1, "build": build}
+        yield {"kind": "hist", "version": "2.1", "ops": [["rx", "1;255;0;0;17;2.1\n"], ["rx", "1;0;0;0;6;t\n"], ["rx", "1;0;1;0;0;20\n"]], "load_via": "own", "final_saves": 1, "build": build}
+    yield {"kind": "direct", "registry": small, "legacy_nulls": False, "load_via": "own", "final_saves": 1, "reload_after_use": True}
+    yield {"kind": "hist", "version": "2.1", "ops": [["rx", "1;255;0;0;17;2.1\n"], ["rx", "1;0;0;0;6;t\n"], ["rx", "1;0;1;0;0;20\n"], ["rx", "1;255;3;0;0;7\n"]], "load_via": "explicit", "final_saves": 1,
+           "reload_after_use": True}
     # texts in every text field, one per case: saved and loaded back unchanged
     for text in ODD_TEXT:
         ops = [["rx", "1;255;0;0;17;2.1\n"], ["rx", f"1;255;3;0;11;{text}\n"], ["rx", f"1;255;3;0;12;{text}\n"], ["rx", f"1;0;0;0;6;{text}\n"], ["rx", f"1;0;1;0;47;{text}\n"], ["rx", f"2;255;0;0;17;{text}\n"]]
@@ -310,8 +317,17 @@ def run_case(case: dict) -> Outcome:
     path = os.path.join(scratch, "persistence.json")
     info = {"boundary": False, "snapshot": {}}
 
+    built_outside = None
+    if case.get("build") in ("outside", "two-runs"):
+        try:
+            built_outside = Gateway(env.RecordingTransport(), Config(persistence_file=path))
+        except Exception as err:  # noqa: BLE001
+            shutil.rmtree(scratch, ignore_errors=True)
+            return fail(f"construct-raises:{type(err).__name__}", f"Gateway(..., Config(persistence_file=...)) built by synchronous start-up code (no event loop yet) raised {err!r}")
+
     async def go() -> Outcome | None:
-        gateway = Gateway(env.RecordingTransport(), Config(persistence_file=path))
+        # "outside": the objects are created by synchronous start-up code before any event loop runs (then asyncio.run)
+        gateway = built_outside or Gateway(env.RecordingTransport(), Config(persistence_file=path))
         if case["kind"] == "hist":
             gateway.protocol_version = case["version"]
             mids = set(case.get("mid_saves") or ())
@@ -346,6 +362,10 @@ def run_case(case: dict) -> Outcome:
                 await gateway.persistence.save()
         except Exception as err:  # noqa: BLE001
             return fail(f"save-raises:{type(err).__name__}", f"save of {before!r} raised {err!r}")
+        if case.get("build") == "two-runs":
+            info["loader"] = gateway  # the same objects are used again under a second asyncio.run
+            info["before"] = before
+            return None
         status, after = await _load(path, case.get("load_via", "own"))
         if status != "ok":
             why = "battery-out-of-range" if any(not 0 <= n["battery_level"] <= 100 for n in before.values()) else type(after).__name__
@@ -355,6 +375,24 @@ def run_case(case: dict) -> Outcome:
 
             diff = _first_diff(before, after)
             return fail(f"roundtrip-differs:{diff[0]}", f"at {diff[1]}: saved {diff[2]!r}, loaded {diff[3]!r}")
+        # Q: the file just loaded is loaded once more after the first result was used (and changed) by its owner
+        if case.get("reload_after_use"):
+            owner = Gateway(env.RecordingTransport(), Config(persistence_file=path))
+            await owner.persistence.load()
+            for node in owner.nodes.values():
+                node.battery_level = 55 if node.battery_level != 55 else 56
+                node.sketch_name = "changed by the first loader"
+                node.add_child(200, 6, "added by the first loader")
+                for child in node.children.values():
+                    child.values[0] = "31.5"
+            status2, again = await _load(path, case.get("load_via", "own"))
+            if status2 != "ok":
+                return fail(f"second-load-raises:{type(again).__name__}", f"loading the same file a second time raised {again!r}")
+            if again != before:
+                from vf.drive import _first_diff
+
+                diff = _first_diff(before, again)
+                return fail(f"second-load-differs:{diff[0]}", f"the file was loaded, the first loader changed its registry, the file (unchanged) was loaded again: at {diff[1]} saved {diff[2]!r}, loaded {diff[3]!r}")
         if case["kind"] == "direct" and not any(n["sleeping"] for n in before.values()):
             legacy_path = os.path.join(scratch, "legacy.json")
             with open(legacy_path, "w", encoding="utf-8") as fil:
@@ -371,9 +409,27 @@ def run_case(case: dict) -> Outcome:
 
     try:
         bad = env.run(go())
+        if bad is None and case.get("build") == "two-runs":
+            async def second_run() -> Outcome | None:
+                saver = info["loader"]
+                try:
+                    await saver.persistence.save()  # the object built before the first loop, used under a second one
+                    saver.nodes.clear()
+                    await saver.persistence.load()
+                except Exception as err:  # noqa: BLE001
+                    return fail(f"second-run-raises:{type(err).__name__}", f"save/load of the same Persistence object under a second event loop raised {err!r}")
+                after = env.snapshot(saver.nodes)
+                if after != info["before"]:
+                    from vf.drive import _first_diff
+
+                    diff = _first_diff(info["before"], after)
+                    return fail(f"roundtrip-differs:{diff[0]}", f"(second event loop) at {diff[1]}: saved {diff[2]!r}, loaded {diff[3]!r}")
+                return None
+
+            bad = env.run(second_run())
     finally:
         shutil.rmtree(scratch, ignore_errors=True)
-    classes = (f"kind={case['kind']}", f"nodes={min(len(info['snapshot']), 4)}") + (("boundary-value-in-registry",) if info["boundary"] else ())
+    classes = (f"kind={case['kind']}", f"nodes={min(len(info['snapshot']), 4)}") + ((f"build={case['build']}",) if case.get("build") else ()) + (("boundary-value-in-registry",) if info["boundary"] else ())
     if bad is not None:
         bad.classes = classes
         return bad
